@@ -223,4 +223,10 @@ def World.acq (w : World) (m : Nat) : World × (Int × Int) :=
 def World.newCircuit (w : World) (rep : Rep) : World × Nat :=
   w.newOp { cls := .comp, link := 0, rep := rep }
 
+/-- `DeclarativeCircuit(relation=RelationLink(ref, rel), repetition_strategy=rep)`: a composite scheduled relative to an
+    operation that exists already (typically one of the circuit it is going to be added to). -/
+def World.newCircuitRel (w : World) (rep : Rep) (ref : Nat) (rel : Rel) : World × Nat :=
+  let (w, l) := w.newLink { refs := [ref], rel := rel }
+  w.newOp { cls := .comp, link := l, rep := rep }
+
 end Qco
